@@ -76,6 +76,10 @@ def jwe_alg_for(slot) -> tuple[str, str]:
     if n in ("p2s", "p2c"): return "PBES2-HS256+A128KW", "A128GCM"
     if n in ("iv", "tag"): return "A128GCMKW", "A128CBC-HS256"
     if n == "skid": return "ECDH-1PU", "A128GCM"
+    if slot["kind"] == "json_shape" and "v" in slot:
+        # a member missing from the JSON object meets every key-management family in turn
+        return [("A128KW", "A128GCM"), ("ECDH-ES+A128KW", "A128GCM"), ("ECDH-ES+A256KW", "A128CBC-HS256"), ("PBES2-HS256+A128KW", "A128GCM"),
+                ("A128GCMKW", "A128GCM"), ("RSA-OAEP", "A256GCM"), ("ECDH-ES", "A128GCM"), ("dir", "A128GCM")][(slot["v"] // 2) % 8]
     return "A128KW", "A128GCM"
 
 
@@ -147,7 +151,7 @@ def build_and_run(case, v: int, seed: int):
             return mod.deserialize_compact(tok, key, registry=reg) if ser == "compact" else mod.deserialize_json(tok, key, registry=reg)
         return classify(call)
     # ---------------- JWE family
-    alg, enc = jwe_alg_for(slot)
+    alg, enc = jwe_alg_for({**slot, "v": v} if kind == "json_shape" else slot)
     rj = K.get(K.jwe_key_kind(alg, enc))
     sj = K.get("EC:P-256", 1) if alg == "ECDH-1PU" else None
     prot = {"alg": alg, "enc": enc}
@@ -233,7 +237,9 @@ def build_and_run(case, v: int, seed: int):
                 tok["recipients"] = []
             elif cls == "missing":
                 tok.pop("unprotected", None); tok.pop("aad", None)
-                if "recipients" in tok:
+                if v % 2:            # only the encrypted_key member is missing, the per-recipient header stays
+                    (tok["recipients"][0] if "recipients" in tok else tok).pop("encrypted_key", None)
+                elif "recipients" in tok:
                     tok["recipients"] = [{}]
                 else:
                     tok.pop("header", None); tok.pop("encrypted_key", None)
@@ -284,7 +290,7 @@ def run_chunk(args):
     out = []
     for idx, case in items:
         # "short" contents are few enough to try them all: every one-octet stream and a two-octet one for each first octet
-        for v in (range(512) if case["class"] == "short" else range(nvar)):
+        for v in (range(512) if case["class"] == "short" else range(16) if (case["slot"]["kind"] == "json_shape" and case["class"] == "missing") else range(nvar)):
             try:
                 o = build_and_run(case, v, seed)
             except Exception as e:  # noqa
